@@ -4,6 +4,8 @@ package main
 import (
 	"fmt"
 	"net"
+	"os"
+	"path/filepath"
 	"strings"
 	"sync"
 	"time"
@@ -23,7 +25,7 @@ type Input struct {
 	Proto    string `json:"proto"` // tcp | udp
 	Svcs     []Svc  `json:"services"`
 	Segs     []hx.B `json:"segments"`
-	Unlisted bool   `json:"unlisted"` // probe a port that is not configured
+	Unlisted bool   `json:"unlisted"`           // probe a port that is not configured
 	CfgIP    string `json:"cfg_ip,omitempty"`   // port entry carries this address ("" = none)
 	ProbeIP  string `json:"probe_ip,omitempty"` // local address of the probe connection
 	// shape of the port table around the probed port: PortsN > 0 puts it at index PortIdx of a
@@ -33,6 +35,9 @@ type Input struct {
 	PortIdx int  `json:"port_idx,omitempty"`
 	Before  bool `json:"before,omitempty"`
 	After   bool `json:"after,omitempty"`
+	// the client pauses GapMs[i] milliseconds before segment i (below the server's 30 s read
+	// timeout: the stream must still arrive whole)
+	GapMs []int `json:"gap_ms,omitempty"`
 }
 
 type Obs struct {
@@ -82,11 +87,18 @@ func mkToml(in Input) string {
 }
 
 func runOne(in Input, scratch string) (Obs, string) {
-	var ob Obs
 	l, err := lab.Start(mkToml(in), scratch)
 	if err != nil {
 		hx.Fatal("lab start: %v", err)
 	}
+	return probeOne(l, in)
+}
+
+// probeOne runs the case's client against an already started server instance and stops it
+// (server start-up touches process-wide state and is never done concurrently; probing is)
+func probeOne(l *lab.Lab, in Input) (Obs, string) {
+	var ob Obs
+	var err error
 	defer l.Stop()
 	if !l.Started() {
 		return ob, "server returned before starting the listener"
@@ -104,7 +116,11 @@ func runOne(in Input, scratch string) (Obs, string) {
 		pip = in.ProbeIP
 	}
 	if in.Proto == "tcp" {
-		err = l.Probe(&net.TCPAddr{IP: net.ParseIP(pip), Port: port}, &net.TCPAddr{IP: net.ParseIP("198.51.100.7"), Port: 40000}, segs)
+		var gaps []time.Duration
+		for _, g := range in.GapMs {
+			gaps = append(gaps, time.Duration(g)*time.Millisecond)
+		}
+		err = l.ProbePaced(&net.TCPAddr{IP: net.ParseIP(pip), Port: port}, &net.TCPAddr{IP: net.ParseIP("198.51.100.7"), Port: 40000}, segs, gaps)
 	} else {
 		var d []byte
 		for _, s := range segs {
@@ -349,6 +365,18 @@ func main() {
 			Input{Proto: "tcp", Svcs: []Svc{{ID: 1, Detector: true, Prefix: "AA", ReadSize: 3}, {ID: 2, Detector: true, Prefix: "B", ReadSize: 3}}, Segs: []hx.B{hx.B("BCDEFGH")}},
 			Input{Proto: "udp", Svcs: []Svc{{ID: 1, Detector: true, Prefix: "AA", ReadSize: 7}, {ID: 2, ReadSize: 7}}, Segs: []hx.B{hx.B("BCDEFGHIJKLMNOP")}},
 		)
+		// a client that falls silent for a while (well below the 30 s read timeout) between its
+		// segments, on a port that goes through detection and on one that does not
+		paced := [][]int{{0, 6500}}
+		if o.Tier != "quick" {
+			paced = [][]int{{0, 6500}, {0, 12000, 100}, {7000, 0, 9000}}
+		}
+		for _, g := range paced {
+			ins = append(ins,
+				Input{Proto: "tcp", Svcs: []Svc{{ID: 1, Detector: true, Prefix: "AA", ReadSize: 4096}, {ID: 2, Detector: true, Prefix: "B", ReadSize: 16}}, Segs: []hx.B{hx.B("BCD"), hx.B("EFGHIJ"), hx.B("KL")}, GapMs: g},
+				Input{Proto: "tcp", Svcs: []Svc{{ID: 1, Detector: true, Prefix: "B", ReadSize: 5}, {ID: 2, ReadSize: 16}}, Segs: []hx.B{hx.B("BCD"), hx.B("EFGHIJ"), hx.B("KL")}, GapMs: g},
+				Input{Proto: "tcp", Svcs: []Svc{{ID: 1, ReadSize: 7}}, Segs: []hx.B{hx.B("BCD"), hx.B("EFGHIJ"), hx.B("KL")}, GapMs: g})
+		}
 		n := 300
 		if o.Tier != "quick" {
 			n = 3000
@@ -359,8 +387,41 @@ func main() {
 	}
 	dist := map[string]int{}
 	var cases []hx.Case
+	// the paced cases spend their time sleeping: run them beside the sequential ones, each
+	// with its own server instance and scratch directory
+	type pres struct {
+		ob    Obs
+		crash string
+	}
+	pacedRes := map[int]chan pres{}
 	for i, in := range ins {
-		ob, crash := runOne(in, o.Out)
+		if len(in.GapMs) == 0 {
+			continue
+		}
+		ch := make(chan pres, 1)
+		pacedRes[i] = ch
+		dir := filepath.Join(o.Out, fmt.Sprintf("paced-%d", i))
+		os.MkdirAll(dir, 0o755)
+		l, err := lab.Start(mkToml(in), dir)
+		if err != nil {
+			hx.Fatal("lab start: %v", err)
+		}
+		l.Started()
+		go func(i int, in Input) {
+			ob, crash := probeOne(l, in)
+			ch <- pres{ob, crash}
+		}(i, in)
+	}
+	for i, in := range ins {
+		var ob Obs
+		var crash string
+		if ch, ok := pacedRes[i]; ok {
+			r := <-ch
+			ob, crash = r.ob, r.crash
+			dist["paced-client"]++
+		} else {
+			ob, crash = runOne(in, o.Out)
+		}
 		dist["proto:"+in.Proto]++
 		dist[fmt.Sprintf("services:%d", len(in.Svcs))]++
 		dist[fmt.Sprintf("segments:%d", minInt(len(in.Segs), 5))]++
